@@ -1,2 +1,428 @@
-(* C07 proofs: placeholder *)
-From TT Require Import Lib.Base Spec.C07 Corr.C07.
+(* C07 - the model meets the statement; the executable statement implies the readable one. *)
+From Coq Require Import String Ascii.
+From TT Require Import Lib.Base Lib.Sort Model.TextRepr Model.Assertions Spec.C07 Corr.C07
+     Proof.C07Repr Proof.C07Names.
+Local Open Scope string_scope.
+
+(* ---------- subsequences ---------- *)
+Inductive sub {A} : list A -> list A -> Prop :=
+| sub_nil : sub [] []
+| sub_skip x l' l : sub l' l -> sub l' (x :: l)
+| sub_keep x l' l : sub l' l -> sub (x :: l') (x :: l).
+
+Lemma sub_refl {A} (l : list A) : sub l l.
+Proof. induction l; constructor; assumption. Qed.
+Lemma sub_nil_l {A} (l : list A) : sub [] l.
+Proof. induction l; constructor; assumption. Qed.
+Lemma sub_app {A} (a' a b' b : list A) : sub a' a -> sub b' b -> sub (a' ++ b')%list (a ++ b)%list.
+Proof. induction 1; simpl; intro Hb; [exact Hb|apply sub_skip; auto|apply sub_keep; auto]. Qed.
+Lemma sub_in {A} (l' l : list A) x : sub l' l -> In x l' -> In x l.
+Proof. induction 1; simpl; intro Hb; [exact Hb|right; auto|destruct Hb; [left; assumption|right; auto]]. Qed.
+Lemma sub_map {A B} (f : A -> B) l' l : sub l' l -> sub (map f l') (map f l).
+Proof. induction 1; simpl; [apply sub_nil|apply sub_skip; assumption|apply sub_keep; assumption]. Qed.
+Lemma sub_flat_map {A B} (f : A -> list B) l' l : sub l' l -> sub (flat_map f l') (flat_map f l).
+Proof.
+  induction 1; simpl; [apply sub_nil| |].
+  - apply (sub_app [] (f x)); [apply sub_nil_l|assumption].
+  - apply sub_app; [apply sub_refl|assumption].
+Qed.
+Lemma sub_trans {A} (a b c : list A) : sub a b -> sub b c -> sub a c.
+Proof.
+  intros H1 H2. revert a H1. induction H2; intros a H1.
+  - exact H1.
+  - apply sub_skip. auto.
+  - inversion H1; subst; [apply sub_skip; auto|apply sub_keep; auto].
+Qed.
+Lemma sub_nodup {A} (l' l : list A) : sub l' l -> NoDup l -> NoDup l'.
+Proof.
+  induction 1; intro ND; [constructor|inversion ND; auto|].
+  inversion ND; subst. constructor; [|auto]. intro Hin. apply H2. eapply sub_in; eassumption.
+Qed.
+
+(* ---------- what a statement asks to attach ---------- *)
+Definition requests_of_step (s : step) : list detail :=
+  match s_kind s, s_mis s with
+  | AssertThat, Some ds => ds
+  | ExpectThat, Some ds => (ds ++ [("Failed expectation", 0)])%list
+  | _, _ => []
+  end.
+(* the statements that are executed: up to and including the first that raises *)
+Fixpoint exec (steps : list step) : list step :=
+  match steps with
+  | [] => []
+  | s :: r => if raises_step s then [s] else s :: exec r
+  end.
+
+Lemma executed_exec steps : executed steps = exec steps.
+Proof.
+  unfold executed. induction steps as [|s r IH]; simpl; [reflexivity|].
+  destruct (raises_step s); simpl; [reflexivity|]. rewrite IH. reflexivity.
+Qed.
+
+Lemma exec_sub steps : sub (exec steps) steps.
+Proof.
+  induction steps as [|s r IH]; simpl; [constructor|].
+  destruct (raises_step s); [constructor; apply sub_nil_l|constructor; exact IH].
+Qed.
+
+(* ---------- the invariant through the body ---------- *)
+Lemma fold_add_inv ds : forall reqs l, Inv reqs l ->
+  exists tail, fold_left add_unique ds (Some l) = Some (l ++ tail)%list /\ Inv (reqs ++ ds)%list (l ++ tail)%list.
+Proof.
+  induction ds as [|d ds IH]; intros reqs l I; cbn [fold_left].
+  - exists []. rewrite !app_nil_r. split; [reflexivity|exact I].
+  - destruct (add_unique_inv reqs l d I) as [l' [E I']].
+    assert (exists x, l' = (l ++ [x])%list) as [x ->].
+    { unfold add_unique in E. destruct (unique_name _ _); [|discriminate]. injection E as <-. eauto. }
+    rewrite E. destruct (IH _ _ I') as [tail [E2 I2]].
+    exists (x :: tail). rewrite <- !app_assoc in *. simpl in *. split; assumption.
+Qed.
+
+Definition mis_list (m : option (list detail)) : list detail := match m with Some ds => ds | None => [] end.
+
+Lemma run_body_spec steps : forall st reqs l,
+  t_details st = Some l -> Inv reqs l ->
+  exists st2 raised tail,
+    run_body st steps = (st2, exp_raised steps, raised)
+    /\ raised || t_forced st2 = t_forced st || existsb (fun s => is_some (s_mis s)) (exec steps)
+    /\ t_details st2 = Some (l ++ tail)%list
+    /\ Inv (reqs ++ flat_map requests_of_step (exec steps))%list (l ++ tail)%list.
+Proof.
+  induction steps as [|s r IH]; intros st reqs l D I; simpl.
+  - exists st, false, []. rewrite !app_nil_r, orb_false_r. auto.
+  - unfold raises_step, requests_of_step. destruct s as [k mis]. simpl.
+    destruct k; simpl.
+    + (* assertThat *)
+      destruct mis as [ds|]; simpl.
+      * destruct (fold_add_inv ds reqs l I) as [tail [E I2]]. rewrite D, E.
+        eexists _, true, tail. rewrite app_nil_r. simpl. rewrite orb_true_r. auto.
+      * destruct (IH st reqs l D I) as [st2 [raised [tail [E [O [D2 I2]]]]]]. rewrite E.
+        exists st2, raised, tail. auto.
+    + (* expectThat *)
+      destruct mis as [ds|]; simpl.
+      * destruct (fold_add_inv ds reqs l I) as [tail [E I2]]. rewrite D, E.
+        destruct (add_unique_inv _ _ ("Failed expectation", 0) I2) as [l' [E' I3]].
+        assert (exists x, l' = ((l ++ tail) ++ [x])%list) as [x ->].
+        { unfold add_unique in E'. destruct (unique_name _ _); [|discriminate]. injection E' as <-. eauto. }
+        rewrite E'.
+        destruct (IH {| t_details := Some ((l ++ tail) ++ [x])%list; t_forced := true |} _ _ eq_refl I3)
+          as [st2 [raised [tail2 [E2 [O [D2 I4]]]]]].
+        rewrite E2. exists st2, raised, (tail ++ x :: tail2)%list. simpl in O.
+        rewrite O, orb_true_r. simpl.
+        rewrite <- !app_assoc in *. simpl in *. auto.
+      * destruct (IH st reqs l D I) as [st2 [raised [tail [E [O [D2 I2]]]]]]. rewrite E.
+        exists st2, raised, tail. auto.
+    + (* assert_that *)
+      destruct mis as [ds|]; simpl.
+      * exists st, true, []. rewrite !app_nil_r. simpl. rewrite orb_true_r. auto.
+      * destruct (IH st reqs l D I) as [st2 [raised [tail [E [O [D2 I2]]]]]]. rewrite E.
+        exists st2, raised, tail. auto.
+Qed.
+
+(* ---------- payload ---------- *)
+Definition nz (d : detail) : bool := negb (Nat.eqb (snd d) 0).
+
+Lemma answers_filter reqs ds : answers reqs ds -> answers (filter nz reqs) (filter nz ds).
+Proof.
+  induction 1 as [|req d reqs ds [E C] _ IH]; simpl; [constructor|].
+  assert (Z : nz d = nz req) by (unfold nz; rewrite E; reflexivity). rewrite Z.
+  destruct (nz req); [constructor; auto|exact IH].
+Qed.
+
+Lemma filter_nz_all l : ~ In 0 (map snd l) -> filter nz l = l.
+Proof.
+  induction l as [|d l IH]; simpl; intro H; [reflexivity|].
+  unfold nz at 1. destruct (Nat.eqb (snd d) 0) eqn:E.
+  - apply Nat.eqb_eq in E. exfalso. apply H. left. auto.
+  - simpl. f_equal. apply IH. intro; apply H; right; assumption.
+Qed.
+
+Lemma filter_requests s : ~ In 0 (map snd (mis_list (s_mis s))) ->
+  filter nz (requests_of_step s) = mis_details s.
+Proof.
+  unfold requests_of_step, mis_details. destruct s as [k mis]. simpl. intro H.
+  destruct k, mis as [ds|]; simpl in *; try reflexivity.
+  - apply filter_nz_all. exact H.
+  - rewrite filter_app. simpl. rewrite app_nil_r. apply filter_nz_all. exact H.
+Qed.
+
+Lemma filter_flat_requests steps :
+  ~ In 0 (map snd (flat_map (fun s => mis_list (s_mis s)) steps)) ->
+  filter nz (flat_map requests_of_step steps) = flat_map mis_details steps.
+Proof.
+  induction steps as [|s r IH]; simpl; intro H; [reflexivity|].
+  rewrite map_app in H. rewrite filter_app, filter_requests, IH; [reflexivity| |];
+    intro X; apply H; apply in_or_app; auto.
+Qed.
+
+Lemma nodup_filter_fst (l : list detail) p : NoDup (map fst l) -> NoDup (map fst (filter p l)).
+Proof.
+  induction l as [|d l IH]; simpl; intro H; [constructor|]. inversion H; subst.
+  destruct (p d); simpl; [|auto]. constructor; [|auto].
+  intro Hin. apply H2. apply in_map_iff in Hin as [x [E Hx]]. apply filter_In in Hx as [Hx _].
+  apply in_map_iff. eauto.
+Qed.
+
+(* ---------- the boolean checks ---------- *)
+Lemma nodup_str_iff l : nodup_str l = true <-> NoDup l.
+Proof.
+  induction l as [|x l IH]; simpl; [split; [constructor|reflexivity]|].
+  rewrite andb_true_iff, negb_true_iff, IH. split.
+  - intros [H1 H2]. constructor; [|exact H2]. intro Hin. apply mem_str_in in Hin. congruence.
+  - intro H. inversion H; subst. split; [|assumption].
+    destruct (mem_str x l) eqn:E; [apply mem_str_in in E; contradiction|reflexivity].
+Qed.
+
+Lemma same_tokens_refl l : same_tokens l l = true.
+Proof. unfold same_tokens. apply forallb_forall. intros x _. apply Nat.eqb_refl. Qed.
+
+Lemma append_assoc' (a b c : string) : (a ++ b) ++ c = a ++ b ++ c.
+Proof. induction a as [|x a IH]; simpl; [reflexivity|]. rewrite IH. reflexivity. Qed.
+
+Lemma prefix_str_app p rest : prefix_str p (p ++ rest) = true.
+Proof. induction p as [|a p IH]; simpl; [reflexivity|]. rewrite Ascii.eqb_refl. exact IH. Qed.
+
+Lemma prefix_str_exists p : forall s, prefix_str p s = true -> exists rest, s = p ++ rest.
+Proof.
+  induction p as [|a p IH]; intros s H; simpl in *; [eauto|].
+  destruct s as [|b s]; [discriminate|]. apply andb_true_iff in H as [E H].
+  apply Ascii.eqb_eq in E. subst b. destruct (IH s H) as [rest ->]. eauto.
+Qed.
+
+Lemma derived_of_cand n base : IsCand n base -> derived n base = true.
+Proof.
+  intros [k ->]. unfold derived. destruct k as [|k]; simpl.
+  - rewrite String.eqb_refl. reflexivity.
+  - unfold suffixed. rewrite <- append_assoc', prefix_str_app. apply orb_true_r.
+Qed.
+
+Lemma derived_sound n base : derived n base = true -> Derived n base.
+Proof.
+  unfold derived, Derived. intro H. apply orb_true_iff in H as [H|H].
+  - left. apply String.eqb_eq. exact H.
+  - right. destruct (prefix_str_exists _ _ H) as [rest ->]. exists rest. apply append_assoc'.
+Qed.
+
+Lemma base_of_nodup w : NoDup (map snd w) -> forall b t, In (b, t) w -> base_of t w = Some b.
+Proof.
+  induction w as [|[n t'] w IH]; simpl; intros ND b t H; [contradiction|]. inversion ND; subst.
+  destruct H as [H|H].
+  - injection H as -> ->. rewrite Nat.eqb_refl. reflexivity.
+  - destruct (Nat.eqb t t') eqn:E; [|apply IH; assumption].
+    apply Nat.eqb_eq in E. subst t'. exfalso. apply H2. apply in_map_iff. exists (b, t). auto.
+Qed.
+
+Lemma detail_eqb_eq a b : detail_eqb a b = true <-> a = b.
+Proof.
+  unfold detail_eqb. rewrite andb_true_iff, String.eqb_eq, Nat.eqb_eq. destruct a, b; simpl.
+  split; [intros [-> ->]; reflexivity|intro H; injection H as -> ->; auto].
+Qed.
+
+Lemma answers_snd w od : answers w od -> map snd od = map snd w.
+Proof. induction 1 as [|a b w od [E _] _ IH]; simpl; [reflexivity|]. rewrite E, IH. reflexivity. Qed.
+
+Lemma answers_in w od d : answers w od -> In d od -> exists b, In (b, snd d) w /\ IsCand (fst d) b.
+Proof.
+  induction 1 as [|a b w od [E C] _ IH]; simpl; intro H; [contradiction|].
+  destruct H as [->|H].
+  - exists (fst a). rewrite E. destruct a; simpl. auto.
+  - destruct (IH H) as [b' [H1 H2]]. eauto.
+Qed.
+
+(* ---------- assertThat / expectThat / assert_that: the model meets the statement ---------- *)
+Theorem test_meets_spec pre steps : wf (ITest pre steps) -> spec_okb (ITest pre steps) (model (ITest pre steps)) = true.
+Proof.
+  intros [ND [NZ NDpre]]. unfold model, run_test.
+  assert (I0 : Inv pre pre).
+  { split; [|exact NDpre]. unfold answers. clear. induction pre; constructor; [|assumption].
+    split; [reflexivity|exists 0; reflexivity]. }
+  destruct (run_body_spec steps {| t_details := Some pre; t_forced := false |} pre pre eq_refl I0)
+    as [st2 [raised [tail [E [O [D2 [A ND2]]]]]]].
+  rewrite E. simpl. rewrite D2. simpl in O.
+  unfold test_okb. simpl.
+  rewrite (proj2 (list_eqb_spec Bool.eqb bool_eqb_spec _ _) eq_refl). simpl.
+  unfold any_mismatch. rewrite executed_exec, O.
+  assert (Hoc : outcome_eqb (if existsb (fun s => is_some (s_mis s)) (exec steps) then Failure else Success)
+                            (if existsb (fun s => is_some (s_mis s)) (exec steps) then Failure else Success) = true)
+    by (destruct (existsb _ _); reflexivity).
+  rewrite Hoc. simpl.
+  (* the payload details answer the wanted ones *)
+  unfold all_details in ND, NZ.
+  assert (NZpre : ~ In 0 (map snd pre)) by (intro X; apply NZ; rewrite map_app; apply in_or_app; auto).
+  assert (SubF : sub (flat_map (fun s => mis_list (s_mis s)) (exec steps))
+                     (flat_map (fun s => match s_mis s with Some ds => ds | None => [] end) steps)).
+  { apply (sub_flat_map (fun s => mis_list (s_mis s))). apply exec_sub. }
+  assert (NZex : ~ In 0 (map snd (flat_map (fun s => mis_list (s_mis s)) (exec steps)))).
+  { intro X. apply NZ. rewrite map_app. apply in_or_app. right.
+    eapply sub_in; [apply sub_map; exact SubF|exact X]. }
+  assert (W : filter nz (pre ++ flat_map requests_of_step (exec steps)) = wanted pre steps).
+  { unfold wanted. rewrite executed_exec, filter_app, (filter_nz_all pre NZpre), filter_flat_requests; auto. }
+  pose proof (answers_filter _ _ A) as AF. rewrite W in AF. change (filter nz (pre ++ tail)) with (payload (pre ++ tail)) in AF.
+  change (filter (fun d => negb (Nat.eqb (snd d) 0)) (pre ++ tail)) with (payload (pre ++ tail)).
+  set (od := payload (pre ++ tail)) in *. set (w := wanted pre steps) in *.
+  assert (NDw : NoDup (map snd w)).
+  { subst w. unfold wanted. rewrite executed_exec.
+    eapply sub_nodup; [|exact ND]. apply sub_map. apply sub_app; [apply sub_refl|].
+    assert (forall l, sub (flat_map mis_details l) (flat_map (fun s => mis_list (s_mis s)) l)).
+    { induction l as [|s l IHl]; simpl; [constructor|]. apply sub_app; [|exact IHl].
+      unfold mis_details, mis_list. destruct (attaches (s_kind s)); [apply sub_refl|apply sub_nil_l]. }
+    (* flat_map mis_details (exec steps) is a subsequence of the details of all steps *)
+    eapply sub_trans; [apply H|exact SubF]. }
+  unfold details_okb. fold w.
+  rewrite (answers_snd _ _ AF), same_tokens_refl. simpl.
+  assert (NDod : NoDup (map fst od)) by (apply nodup_filter_fst; exact ND2).
+  rewrite (proj2 (nodup_str_iff _) NDod). simpl.
+  apply andb_true_iff. split.
+  - apply forallb_forall. intros d Hd. destruct (answers_in _ _ _ AF Hd) as [b [Hin C]].
+    rewrite (base_of_nodup w NDw b (snd d) Hin). apply derived_of_cand. exact C.
+  - apply forallb_forall. intros d Hd. apply existsb_exists. exists d. split; [|apply detail_eqb_eq; reflexivity].
+    subst od. unfold payload. rewrite filter_app. apply in_or_app. left.
+    change (fun d0 : string * nat => negb (Nat.eqb (snd d0) 0)) with nz. rewrite (filter_nz_all pre NZpre). exact Hd.
+Qed.
+
+(* ---------- text_repr ---------- *)
+Lemma memN_in c l : memN c l = true <-> In c l.
+Proof.
+  induction l as [|x l IH]; simpl; [split; [discriminate|contradiction]|].
+  rewrite orb_true_iff, IH, N.eqb_eq. split; intros [H|H]; auto.
+Qed.
+
+Lemma res_eqb'_refl b l : res_eqb' (Some (b, l)) (Some (b, l)) = true.
+Proof.
+  simpl. rewrite (proj2 (list_eqb_spec N.eqb N.eqb_eq l l) eq_refl). destruct b; reflexivity.
+Qed.
+
+Theorem repr_meets_spec isb s ml np :
+  wf (IRepr isb s ml np) -> agree (IRepr isb s ml np) = true ->
+  spec_okb (IRepr isb s ml np) (model (IRepr isb s ml np)) = true.
+Proof.
+  intros V A. unfold model. rewrite A. simpl. unfold repr_okb. simpl.
+  rewrite (tok_roundtrip isb (nonprint_of np) s ml V). apply res_eqb'_refl.
+Qed.
+
+(* ---------- the whole statement ---------- *)
+Theorem model_meets_spec i : wf i -> agree i = true -> spec_okb i (model i) = true.
+Proof.
+  destruct i as [isb s ml np|name modelled hm|pre steps]; intros W A.
+  - apply repr_meets_spec; assumption.
+  - simpl in W. subst modelled. simpl.
+    apply (list_eqb_spec okind_eqb). 2: reflexivity.
+    intros a b. destruct a, b; simpl; split; intro H; try discriminate; try reflexivity; try congruence.
+    + apply Nat.eqb_eq in H. congruence.
+    + injection H as ->. apply Nat.eqb_refl.
+  - apply test_meets_spec. exact W.
+Qed.
+
+(* ---------- what the model does, in one statement ---------- *)
+Theorem run_test_spec (pre : list detail) (steps : list step) : NoDup (map fst pre) ->
+  exists tail,
+    run_test pre steps = {| r_raised := exp_raised steps; r_after_ran := true;
+                            r_outcome := if any_mismatch steps then Failure else Success;
+                            r_details := Some (pre ++ tail)%list |}
+    /\ Inv (pre ++ flat_map requests_of_step (exec steps))%list (pre ++ tail)%list.
+Proof.
+  intro NDpre.
+  assert (I0 : Inv pre pre).
+  { split; [|exact NDpre]. unfold answers. clear. induction pre; constructor; [|assumption].
+    split; [reflexivity|exists 0; reflexivity]. }
+  destruct (run_body_spec steps {| t_details := Some pre; t_forced := false |} pre pre eq_refl I0)
+    as [st2 [raised [tail [E [O [D2 I2]]]]]].
+  exists tail. split; [|exact I2]. unfold run_test. rewrite E. simpl in O.
+  unfold any_mismatch. rewrite executed_exec, O, D2. reflexivity.
+Qed.
+
+(* statement k raises iff it is assertThat / assert_that and its matcher mismatches; expectThat never
+   raises; nothing is executed after a raise *)
+Lemma exp_raised_nth steps : forall k b, nth_error (exp_raised steps) k = Some b ->
+  exists s, nth_error steps k = Some s /\ b = is_assert (s_kind s) && is_some (s_mis s)
+            /\ (b = true -> List.length (exp_raised steps) = S k).
+Proof.
+  induction steps as [|s r IH]; intros k b H; simpl in H; [destruct k; discriminate|].
+  cbn [exp_raised]. unfold raises_step in *. destruct (is_assert (s_kind s) && is_some (s_mis s)) eqn:E.
+  - destruct k as [|k]; simpl in H; [|destruct k; discriminate]. injection H as <-.
+    exists s. simpl. auto.
+  - destruct k as [|k]; simpl in H.
+    + injection H as <-. exists s. simpl. repeat split; auto; discriminate.
+    + destruct (IH k b H) as [s' [H1 [H2 H3]]]. exists s'. simpl.
+      repeat split; auto; try (intro Hb; rewrite (H3 Hb); reflexivity).
+Qed.
+
+Lemma exp_raised_expect_only steps :
+  existsb raises_step steps = false -> exp_raised steps = map (fun _ => false) steps /\ exec steps = steps.
+Proof.
+  induction steps as [|s r IH]; simpl; intro H; [auto|].
+  apply orb_false_iff in H as [H1 H2]. rewrite H1. destruct (IH H2) as [-> ->]. auto.
+Qed.
+
+(* ---------- the executable statement implies the readable one ---------- *)
+Lemma count_nat_notin t l : ~ In t l -> count_nat t l = 0.
+Proof.
+  unfold count_nat. induction l as [|x l IH]; simpl; intro H; [reflexivity|].
+  destruct (Nat.eqb t x) eqn:E; [apply Nat.eqb_eq in E; exfalso; apply H; auto|].
+  apply IH. intro; apply H; auto.
+Qed.
+
+Lemma same_tokens_sound a b : same_tokens a b = true -> forall t, count_nat t a = count_nat t b.
+Proof.
+  unfold same_tokens. intros H t.
+  destruct (in_dec Nat.eq_dec t (a ++ b)) as [Hin|Hout].
+  - apply Nat.eqb_eq. apply (proj1 (forallb_forall _ _) H t Hin).
+  - rewrite !count_nat_notin; [reflexivity| |]; intro X; apply Hout; apply in_or_app; auto.
+Qed.
+
+Lemma okind_eqb_eq a b : okind_eqb a b = true <-> a = b.
+Proof.
+  destruct a, b; simpl; split; intro H; try discriminate; try reflexivity; try congruence.
+  - apply Nat.eqb_eq in H. congruence.
+  - injection H as ->. apply Nat.eqb_refl.
+Qed.
+
+Lemma outcome_eqb_eq a b : outcome_eqb a b = true <-> a = b.
+Proof. destruct a, b; simpl; split; intro H; try discriminate; try reflexivity. Qed.
+
+Theorem spec_okb_sound i o : spec_okb i o = true -> Spec i o.
+Proof.
+  destruct i as [isb s ml np|name modelled hm|pre steps], o as [out eb|kinds|raised after oc od|];
+    simpl; try discriminate.
+  - unfold repr_okb. intro H. apply andb_true_iff in H as [-> H]. split; [reflexivity|].
+    destruct (eval_lit out) as [[x l]|]; simpl in H; [|discriminate].
+    apply andb_true_iff in H as [H1 H2]. apply bool_eqb_spec in H1.
+    apply (list_eqb_spec N.eqb N.eqb_eq) in H2. congruence.
+  - intros H M. subst modelled. simpl in H. apply (list_eqb_spec okind_eqb okind_eqb_eq). exact H.
+  - unfold test_okb, details_okb. intro H.
+    repeat (apply andb_true_iff in H as [H ?]).
+    apply (list_eqb_spec Bool.eqb bool_eqb_spec) in H. apply outcome_eqb_eq in H1.
+    repeat split; auto.
+    + apply same_tokens_sound. assumption.
+    + apply nodup_str_iff. assumption.
+    + intros n t Hin. pose proof (proj1 (forallb_forall _ _) H3 (n, t) Hin) as X. simpl in X.
+      destruct (base_of t (wanted pre steps)) as [base|]; [|discriminate].
+      exists base. split; [reflexivity|apply derived_sound; exact X].
+    + intros d Hd. pose proof (proj1 (forallb_forall _ _) H0 d Hd) as X.
+      apply existsb_exists in X as [d' [Hin E]]. apply detail_eqb_eq in E. subst. exact Hin.
+Qed.
+
+(* ---------- the comparison of observations ---------- *)
+Lemma map_tok_inj a b : map (fun t : nat => (EmptyString, t)) a = map (fun t => (EmptyString, t)) b -> a = b.
+Proof.
+  revert b; induction a as [|x a IH]; intros [|y b] H; simpl in H; try discriminate; [reflexivity|].
+  injection H as -> H. f_equal. apply IH. exact H.
+Qed.
+
+Theorem obs_eqb_spec a b : obs_eqb a b = true <-> alpha a = alpha b.
+Proof.
+  destruct a as [x e|x|r a oc d|], b as [y f|y|r' a' oc' d'|]; simpl; split; intro H;
+    try discriminate; try reflexivity.
+  - apply andb_true_iff in H as [H1 H2]. apply (list_eqb_spec N.eqb N.eqb_eq) in H1.
+    apply bool_eqb_spec in H2. congruence.
+  - injection H as -> ->. apply andb_true_iff. split; [apply (list_eqb_spec N.eqb N.eqb_eq)|apply bool_eqb_spec]; reflexivity.
+  - apply (list_eqb_spec okind_eqb okind_eqb_eq) in H. congruence.
+  - injection H as ->. apply (list_eqb_spec okind_eqb okind_eqb_eq). reflexivity.
+  - repeat (apply andb_true_iff in H as [H ?]).
+    apply (list_eqb_spec Bool.eqb bool_eqb_spec) in H. apply bool_eqb_spec in H2.
+    apply outcome_eqb_eq in H1. apply (list_eqb_spec Nat.eqb Nat.eqb_eq) in H0. congruence.
+  - injection H as -> -> -> H. apply map_tok_inj in H. rewrite H.
+    rewrite (proj2 (list_eqb_spec Bool.eqb bool_eqb_spec _ _) eq_refl).
+    rewrite (proj2 (bool_eqb_spec _ _) eq_refl), (proj2 (outcome_eqb_eq _ _) eq_refl).
+    rewrite (proj2 (list_eqb_spec Nat.eqb Nat.eqb_eq _ _) eq_refl). reflexivity.
+Qed.
